@@ -235,6 +235,80 @@ def fresh_keys(specs, hashseed):
 
 VOLUME = {'quick': 700, 'thorough': 12000}
 
+
+def stage_store_roundtrip(report, tier, rng, dist):
+    """C09 through the real save / cached_tasks path: tasks of several types (same name in two modules, prefix-related
+    names, a second cache format) with generated parameter trees are run and cached in one storage; cached_tasks per
+    type must return exactly the cached tasks of that type, each once, structurally identical, same key, with the
+    stored result_meta, and running them must load."""
+    import shutil
+    import lv_universe2 as U2
+    from labtech.lab import Lab
+    n = 120 if tier == 'quick' else 1500
+    types = [U.V2, U.V, U.VV, U2.V2, U.VJ, U.V1, U.VPost]
+    d = tempfile.mkdtemp(dir=subdir('vals'))
+    done = 0
+    try:
+        for batch in range(0, n, 40):
+            storage = os.path.join(d, f's{batch}')
+            lab = Lab(storage=storage, runner_backend='serial', notebook=False)
+            tasks = []
+            for _ in range(40):
+                spec = V.gen_spec(rng, bad=0.0, reserved=0.0, nan=False)
+                try:
+                    raw = V.build(spec)
+                    t = rng.choice(types)(x=raw)
+                except BaseException:   # noqa
+                    continue
+                tasks.append((t, spec))
+            uniq = []
+            for t, spec in tasks:
+                if not any(t == u for u, _ in uniq):
+                    uniq.append((t, spec))
+            lab.run_tasks([t for t, _ in uniq], disable_progress=True, disable_top=True)
+            # nested tasks are executed and cached as well
+            todo = [t for t, _ in uniq]
+            while todo:
+                t = todo.pop()
+                for sub in [x for f in dataclasses.fields(t) for x in find_tasks_in_param(getattr(t, f.name))]:
+                    if not any(sub == u for u, _ in uniq):
+                        uniq.append((sub, ['nested-in', V.g_value_py(t)[:200]]))
+                        todo.append(sub)
+            done += len(uniq)
+            for ty in types:
+                want = [(t, spec) for t, spec in uniq if type(t) is ty]
+                try:
+                    got = lab.cached_tasks([ty])
+                except BaseException as e:   # noqa
+                    report.violation('C09:cached-tasks-raised', f'cached_tasks([{ty.__module__}.{ty.__qualname__}]) raised {e!r}', dict(spec=want[0][1] if want else None))
+                    continue
+                want_ids = sorted((V.g_value_py(t), t.cache_key) for t, _ in want)
+                try:
+                    got_ids = sorted((V.g_value_py(t), t.cache_key) for t in got)
+                except TypeError:
+                    got_ids = None
+                if got_ids != want_ids:
+                    bad_spec = None
+                    for t, spec in want:
+                        if got_ids is None or (V.g_value_py(t), t.cache_key) not in got_ids:
+                            bad_spec = spec
+                            break
+                    extra = len(got) - len(want)
+                    sig = 'store-reconstruct-differs' if bad_spec is not None else ('listed-twice-or-foreign' if extra > 0 else 'store-reconstruct-differs')
+                    report.violation(f'C09:{sig}', f'cached_tasks([{ty.__qualname__}]) returned {len(got)} tasks for {len(want)} cached ones; a cached task is not returned '
+                                                   f'identically (structure or cache_key differs)', dict(spec=bad_spec, type=ty.__qualname__, level='store'))
+                    continue
+                if any(t.result_meta is None or t.result_meta.start is None for t in got):
+                    report.violation('C09:no-stored-meta', 'a task returned by cached_tasks carries no stored result_meta', dict(type=ty.__qualname__, level='store'))
+                before = U.VRUN_COUNT[0]
+                lab.run_tasks(got, disable_progress=True, disable_top=True)
+                if U.VRUN_COUNT[0] != before:
+                    report.violation('C09:rerun-executed', 'running the tasks returned by cached_tasks executed them instead of loading the stored results', dict(type=ty.__qualname__, level='store'))
+            dist['store_roundtrip_tasks'] = done
+    finally:
+        shutil.rmtree(d, ignore_errors=True)
+    return done
+
 # D9 witnesses (known_findings.json): dict parameters spelling a serialised enum / task, and the real ones
 WITNESSES = [
     ['enum', 'lv_universe', 'Color', 'RED'],
@@ -282,6 +356,8 @@ def run(prop, report, tier, seed, replay=None):
         kept.append(spec)
         if depth(spec) >= 2:
             distinct.add(json.dumps(spec))
+    if prop == 'C09' and (replay is None or replay['input'].get('level') == 'store'):
+        stage_store_roundtrip(report, tier, rng, dist)
     if prop == 'C07' and replay is None:
         okspecs = [s for s in kept if V.construct(s)[0] == 'ok'][:400 if tier == 'quick' else 4000]
         base = [V.construct(s)[1].cache_key for s in okspecs]
